@@ -36,6 +36,7 @@ type Env struct {
 	AdminUp, AdminDown                                                   string
 	Health                                                               string
 	Backend                                                              string // "sqlite" | "proxy"
+	Conf                                                                 string // "all" | "nocfg" | "nopid" | "nodb"
 }
 
 // ConfigText renders the scratch Hookaidofile.  alt adds one more route (the
@@ -183,6 +184,30 @@ func NewEnv(root, adminUp, adminDown, health, backend, dbTemplate string) (*Env,
 		}
 	}
 	return e, nil
+}
+
+// ServerCfg / ServerDB / ServerPID are what the server is started with: the
+// scratch files, or "" when the row says that path is not configured (the
+// files exist all the same).
+func (e *Env) ServerCfg() string {
+	if e.Conf == "nocfg" {
+		return ""
+	}
+	return e.Cfg
+}
+
+func (e *Env) ServerDB() string {
+	if e.Conf == "nodb" {
+		return ""
+	}
+	return e.DB
+}
+
+func (e *Env) ServerPID() string {
+	if e.Conf == "nopid" {
+		return ""
+	}
+	return e.PID
 }
 
 func (e *Env) adminListen() string {
